@@ -1,4 +1,5 @@
 mod chunk;
+mod data;
 mod depth;
 mod detect;
 mod enc_replay;
@@ -38,6 +39,8 @@ fn main() {
         "total-worker" => total::worker(),
         "lib-table" => libtable::run(&arg(2)),
         "record-chunker" => chunk::record(&arg(2), num(3, 20)),
+        "record-data" => data::record_translate(&arg(2), num(3, 30)),
+        "record-hops" => data::record_hops(&arg(2), num(3, 30)),
         "record-detect" => detect::record(&arg(2), num(3, 50)),
         "record-mem" => {
             let sizes: Vec<usize> = arg(4).split(',').filter_map(|s| s.parse().ok()).collect();
